@@ -107,8 +107,87 @@ fn padded(s: &str, len: usize) -> Vec<Word> {
     w
 }
 
+
+/// one machine word in hex
+fn wd(s: &str) -> Word {
+    Word::from_str_radix(s, 16).expect("word")
+}
+
+/// appended to the answers of the word-level ops when the build has 32-bit words, so that the oracle runs its
+/// models with w = 32
+fn wtag() -> &'static str {
+    if WB == 32 {
+        " w32"
+    } else {
+        ""
+    }
+}
+
+/// lehmer.rs: MIN_DWORD_GUESS_LEN (read from the source by tools/translate_c12_r3.py and proved equal to the model's copy)
+const MIN_DWORD_GUESS_LEN: usize = 300;
+
+/// the guess of one iteration of gcd_in_place / gcd_ext_in_place (lines 246-252) through the hooks
+fn lehmer_guess_for(x: &[Word], y: &[Word]) -> (Word, Word, Word, Word) {
+    use dashu_int::verif_hooks as vh;
+    if x.len() < MIN_DWORD_GUESS_LEN {
+        let (xh, yh) = vh::lehmer_top_word(x, y);
+        vh::lehmer_guess(xh, yh)
+    } else {
+        let (xh, yh) = vh::lehmer_top_dword(x, y);
+        vh::lehmer_guess_dword(xh, yh)
+    }
+}
+
 fn run(op: &str, a: &[&str]) -> String {
     match op {
+        // ------------------------------------------------------------------ hook level: Lehmer kernels (lehmer.rs)
+        // `lguess <xbar> <ybar>` / `lguessd <xbar> <ybar>`: the cosequence guess from one / two leading words
+        "lguess" => {
+            let (p, q, r, t) = dashu_int::verif_hooks::lehmer_guess(wd(a[0]), wd(a[1]));
+            format!("ok {:x} {:x} {:x} {:x}{}", p, q, r, t, wtag())
+        }
+        "lguessd" => {
+            let (x, y) = (padded(a[0], 2), padded(a[1], 2));
+            let (p, q, r, t) = dashu_int::verif_hooks::lehmer_guess_dword((x[0], x[1]), (y[0], y[1]));
+            format!("ok {:x} {:x} {:x} {:x}{}", p, q, r, t, wtag())
+        }
+        // `ltop <x> <y>` / `ltopd <x> <y>`: the aligned leading word / double word of x >= y
+        "ltop" => {
+            let ((_, x), (_, y)) = (hex_words(a[0]), hex_words(a[1]));
+            let (xh, yh) = dashu_int::verif_hooks::lehmer_top_word(&x, &y);
+            format!("ok {:x} {:x}{}", xh, yh, wtag())
+        }
+        "ltopd" => {
+            let ((_, x), (_, y)) = (hex_words(a[0]), hex_words(a[1]));
+            let (xh, yh) = dashu_int::verif_hooks::lehmer_top_dword(&x, &y);
+            format!("ok {} {}{}", words_hex(false, &[xh.0, xh.1]), words_hex(false, &[yh.0, yh.1]), wtag())
+        }
+        // `lstep <xlen> <x> <ylen> <y> <a> <b> <c> <d>`: lehmer_step on slices of the given lengths
+        "lstep" => {
+            let mut x = padded(a[1], usz(a[0]));
+            let mut y = padded(a[3], usz(a[2]));
+            dashu_int::verif_hooks::lehmer_step(&mut x, &mut y, wd(a[4]), wd(a[5]), wd(a[6]), wd(a[7]));
+            format!("ok {} {}{}", words_hex(false, &x), words_hex(false, &y), wtag())
+        }
+        // `liter <x> <y>`: the Lehmer branch of one iteration of the main loops: guess from the leading bits, then
+        // lehmer_step on the trimmed slices; `ok euclid` when the guess failed (b == 0)
+        "liter" => {
+            let ((_, mut x), (_, mut y)) = (hex_words(a[0]), hex_words(a[1]));
+            let (p, q, r, t) = lehmer_guess_for(&x, &y);
+            if q == 0 {
+                format!("ok euclid{}", wtag())
+            } else {
+                dashu_int::verif_hooks::lehmer_step(&mut x, &mut y, p, q, r, t);
+                format!("ok {:x} {:x} {:x} {:x} {} {}{}", p, q, r, t, words_hex(false, &x), words_hex(false, &y), wtag())
+            }
+        }
+        // `lext <len> <xlen> <x> <ylen> <y> <a> <b> <c> <d>`: lehmer_ext_step on the first len words
+        "lext" => {
+            let mut x = padded(a[2], usz(a[1]));
+            let mut y = padded(a[4], usz(a[3]));
+            let (cx, cy) = dashu_int::verif_hooks::lehmer_ext_step(&mut x, &mut y, usz(a[0]), wd(a[5]), wd(a[6]), wd(a[7]), wd(a[8]));
+            format!("ok {} {} {:x} {:x}{}", words_hex(false, &x), words_hex(false, &y), cx, cy, wtag())
+        }
         // ------------------------------------------------------------------ hook level: Karatsuba square root kernel
         // `ksqrt <n> <a>`: a normalised to 2n words; answer: root, low n words of the remainder, its carry
         "ksqrt" => {
@@ -116,7 +195,7 @@ fn run(op: &str, a: &[&str]) -> String {
             let mut buf = padded(a[1], 2 * n);
             let mut out = vec![0 as Word; n];
             let c = dashu_int::verif_hooks::sqrt_rem_kernel(&mut out, &mut buf);
-            format!("ok {} {} {}", words_hex(false, &out), words_hex(false, &buf[..n]), c as u8)
+            format!("ok {} {} {}{}", words_hex(false, &out), words_hex(false, &buf[..n]), c as u8, wtag())
         }
         // ------------------------------------------------------------------ gcd
         "gcd" => {
@@ -125,7 +204,7 @@ fn run(op: &str, a: &[&str]) -> String {
         }
         "ugcd" => {
             let (x, y) = (ubig(a[1]), ubig(a[2]));
-            format!("ok {}", hu(&forms!(a[0], x, y, gcd)))
+            format!("ok {}{}", hu(&forms!(a[0], x, y, gcd)), wtag())
         }
         "gcd_ui" => {
             let (x, y) = (ubig(a[1]), ibig(a[2]));
@@ -143,7 +222,7 @@ fn run(op: &str, a: &[&str]) -> String {
         "ugcd_ext" => {
             let (x, y) = (ubig(a[1]), ubig(a[2]));
             let (g, s, t) = forms!(a[0], x, y, gcd_ext);
-            format!("ok {} {} {}", hu(&g), hi(&s), hi(&t))
+            format!("ok {} {} {}{}", hu(&g), hi(&s), hi(&t), wtag())
         }
         "gcd_ext_ui" => {
             let (x, y) = (ubig(a[1]), ibig(a[2]));
@@ -170,7 +249,7 @@ fn run(op: &str, a: &[&str]) -> String {
         "usqrt" => format!("ok {}", hu(&ubig(a[0]).sqrt())),
         "usqrt_rem" => {
             let (s, r) = ubig(a[0]).sqrt_rem();
-            format!("ok {} {}", hu(&s), hu(&r))
+            format!("ok {} {}{}", hu(&s), hu(&r), wtag())
         }
         "ucbrt" => format!("ok {}", hu(&ubig(a[0]).cbrt())),
         "ucbrt_rem" => {
